@@ -260,6 +260,7 @@ def finish(ctx, level, checker_cmd, design_ref=''):
         'bounded_parts': b['parts'],
         'bounded_label': 'bounded stand-in (run-time contracts over the stated scope); never counted in discharged',
         'known_findings_hit': sorted(known.keys()),
+        'planted_defect_self_test': getattr(ctx, 'planted', None),
         'notes': ctx.notes,
     }
     ev_level = level
